@@ -67,6 +67,13 @@ def cases(ctx):
                 i += 1
                 if ctx.mine(i):
                     yield {'kind': 'bit', 'bit': bit, 'enc': enc, 'bit1_off': not bit1, 'company': company}
+    # "has no configuration" means: has none now.  The configuration is changed at run time (after earlier inspections in
+    # this process) - an element given a configuration, a configured one taken away - and the answer must follow
+    for bit, how in ((7, 'added'), (8, 'added'), (70, 'added'), (127, 'removed'), (2, 'removed'), (72, 'removed')):
+        for enc in ('latin_1', 'cp500'):
+            i += 1
+            if ctx.mine(i):
+                yield {'kind': 'bit', 'bit': bit, 'enc': enc, 'live_edit': how}
     if ctx.shard == 0:
         ctx.exhaustive_subspace('every input length 0..23; every bit 2..128 in the first bitmap (alone / next to configured elements, bit 1 on / off) x 2 codecs', 24 + 127 * 2 * 4)
 
@@ -292,7 +299,26 @@ def judge(ctx, case):
         bm[(bit - 1) // 8] |= 0x80 >> ((bit - 1) % 8)
         data = struct.pack('>I', 60) + '1240'.encode(case['enc']) + bytes(bm) + b'0' * 40
         configured = str(bit) in msgwork.cfg_of('packaged')
-        k1, info = ctx.call(m.ipm_info, io.BytesIO(data), budget=100000)
+        live_edit = case.get('live_edit')
+        if live_edit:
+            from cardutil.config import config as live
+            ctx.call(m.ipm_info, io.BytesIO(data), budget=100000)          # an inspection before the change
+            saved = live['bit_config'].get(str(bit))
+            if live_edit == 'added':
+                live['bit_config'][str(bit)] = {'field_name': 'added at run time', 'field_type': 'FIXED', 'field_length': 10}
+            else:
+                del live['bit_config'][str(bit)]
+            configured = live_edit == 'added'
+            ctx.count('inspections after the live configuration was changed')
+            try:
+                k1, info = ctx.call(m.ipm_info, io.BytesIO(data), budget=100000)
+            finally:
+                if saved is None:
+                    live['bit_config'].pop(str(bit), None)
+                else:
+                    live['bit_config'][str(bit)] = saved
+        else:
+            k1, info = ctx.call(m.ipm_info, io.BytesIO(data), budget=100000)
         ctx.count('ipm_info calls on invalid input')
         ctx.seen('first-bitmap bit classes', 'configured' if configured else 'unconfigured')
         if k1 != 'ok':
@@ -330,6 +356,8 @@ def require(m):
         reasons.append('no file whose first record exceeds the inspection sample')
     if not m['counters'].get('cases run with MAX_VBS_RECORD_LENGTH changed at run time'):
         reasons.append('configured maximum never changed at run time')
+    if not m['counters'].get('inspections after the live configuration was changed') and not m['violations']:
+        reasons.append('live configuration never changed between inspections')
     if not m['counters'].get('first bitmaps with bit 1 off') and not m['violations']:
         reasons.append('no first bitmap with bit 1 off')
     if set(m['classes'].get('first-bitmap bit classes', ())) != {'configured', 'unconfigured'}:
